@@ -128,6 +128,9 @@ impl SimPair {
     v.sort();
     (v, self.r.ack_base(0).unwrap_or(0))
   }
+  pub fn reader_holds_kind(&self, sn: i64) -> Option<&'static str> {
+    self.r.cache_kind(0, sn)
+  }
   pub fn digest(&self) -> String {
     format!("{} || {} || flight{:?}", self.w.digest(), self.r.digest(), self.flight_labels())
   }
